@@ -213,11 +213,7 @@ def concretise(bad, regime, tag):
     if regime.get("preset"):
         kw["preset"] = E.seg("text", regime["preset"], 5)
     c = {k: int(v) for k, v in E.real_consts(opt, writer).items() if re.fullmatch(r"-?\d+", v)}
-    pe = c["ModeBefore"]
-    if E.asbuilt()["PassExtra"] == "TRUE" and writer == "lzma2":
-        pe = max(pe, 65536 - c["Dict"])
-    bufsize = c["Dict"] + pe + c["ExtraAfter"] + c["MatchMax"] + c["Reserve"]
-    keep_after = c["ExtraAfter"] + c["MatchMax"]
+    bufsize, keep_after = real_window(opt, writer)
     if bad == "copy_before_buffer":
         return straddle_job(f"cex-{tag}", writer, opt, bufsize, keep_after, kw)
     if bad == "pending_lookback_before_buffer":
@@ -244,7 +240,33 @@ def straddle_job(jid, writer, opt, bufsize, keep_after, kw):
                     script=[dict(op="w", n=f), dict(op="f"), dict(op="w", n=260000)], trace=1, **kw)
 
 
+_OBSERVED = {}
+
+
+def observe_windows(specs):
+    """Reads the window constants the real code uses (New event of an empty traced run) for each (opt, writer): recipes that
+    place flushes relative to buf_size / keep_size_after must follow the code under test, not the as-built design."""
+    jobs, keys = [], []
+    for opt, writer in specs:
+        k = json.dumps([opt, writer], sort_keys=True)
+        if k in _OBSERVED or k in keys:
+            continue
+        kw = dict(header=True, end_marker=True) if writer == "lzma1" else {}
+        jobs.append(E.mk_job("probe", writer=writer, opt=opt, input=[], trace=1, decode=False, **kw))
+        keys.append(k)
+    for k, r in zip(keys, E.run_jobs(jobs)):
+        ev = [e for e in r.get("events", []) if e["ev"] == "New"]
+        if ev:
+            _OBSERVED[k] = (ev[0]["bs"], ev[0]["ka"])
+
+
 def real_window(opt, writer="lzma2"):
+    """(buf_size, keep_size_after) of the real encoder for these options: observed if probed, else from the as-built design."""
+    o = dict(dict=65536, lc=3, lp=0, pb=2, mode="fast", nice=32, mf="hc4", depth=0)
+    o.update(opt)
+    k = json.dumps([o, writer], sort_keys=True)
+    if k in _OBSERVED:
+        return _OBSERVED[k]
     c = {k: int(v) for k, v in E.real_consts(opt, writer).items() if re.fullmatch(r"-?\d+", v)}
     pe = c["ModeBefore"]
     if E.asbuilt()["PassExtra"] == "TRUE" and writer == "lzma2":
@@ -403,11 +425,19 @@ def run_plan(ctx, pid, tier):
     ab = E.asbuilt()
     t0 = time.time()
 
+    # window constants of the code under test for every regime a recipe is built for
+    full = lambda o: dict(dict(dict=65536, lc=3, lp=0, pb=2, mode="fast", nice=32, mf="hc4", depth=0), **o)
+    specs = [(full(dict(dict=rg.get("dict", 4096), mode=rg.get("mode", "fast"), mf=rg.get("mf", "hc4"), nice=rg.get("nice", 32))), rg.get("writer", "lzma2"))
+             for _, rg in E.SCALED_CFGS.values()]
+    specs += [(full(dict(dict=d, mode=mode, mf=mf, nice=32)), "lzma2") for d in (4096, 60000, 65536) for mode, mf in (("fast", "hc4"), ("normal", "bt4"))]
+    observe_windows(specs)
+
     # ---------------------------------------------------------------- stage 1: model checking of the as-built design
     inv = {"C01": E.ENC_INV, "C13": ["TypeOK", "LookAheadGate", "AllBytesAccounted", "NoStuck"],
            "C15": ["TypeOK", "IndicesInRange", "HistoryRetained", "ExtendInRange", "MatchSourceInRange", "CopyInRange", "MoveInRange"]}[pid]
-    names = list(E.SCALED_CFGS) if (pid == "C01" or not quick) else ["fast-hc4-smalldict", "fast-bt4-bigdict", "normal-bt4-smalldict",
-                                                                      "lzma1-fast-hc4", "chunksize"]
+    names = list(E.SCALED_CFGS) if not quick else [n for n in E.SCALED_CFGS if n not in ("fast-bt4-smalldict", "normal-hc4-bigdict")] if pid == "C01" else \
+        {"C13": ["fast-hc4-smalldict", "normal-bt4-smalldict", "lzma1-fast-hc4", "chunksize"],
+         "C15": ["fast-hc4-smalldict", "fast-bt4-bigdict", "normal-bt4-smalldict", "lzma1-fast-hc4", "preset"]}[pid]
     def cfg_consts(n):
         c = dict(E.SCALED_CFGS[n][0])
         if not quick:
@@ -510,7 +540,7 @@ def run_plan(ctx, pid, tier):
         for j in bias_jobs(tier, rnd):
             jobs.append(j); meta.append(("bias", {}))
     # trace validation costs one TLC run per distinct vector of real constants: cap the number of traced vectors
-    cap, seen = (26 if quick else 160), set()
+    cap, seen = (20 if quick else 160), set()
     for j in jobs:
         if j.get("trace") and j["writer"] in ("lzma2", "lzma1"):
             k = json.dumps(E.job_consts(j), sort_keys=True)
@@ -703,21 +733,44 @@ def finish_plan(ctx, pid, tier, pool, design, jobs, meta, results, noopt_jobs, n
 
 
 def try_symlib(ctx, tier):
-    """Per-symbol encoder/decoder agreement (group C2), if their library is present."""
+    """Per-symbol encoder / decoder agreement (group C2's LzmaSymbols specification), if their library is present:
+    small round trips with symbol events on both sides, validated by TLC against Trace_LzmaSymbols; a divergence of
+    state / reps at symbol i is a C01 violation (two adaptive models that differ decode some continuation differently)."""
     try:
         from checks import symlib
-    except Exception:
-        ctx.cov["symlib"] = "absent"
+    except Exception as e:
+        ctx.cov["symlib"] = f"absent ({type(e).__name__})"
         return
-    fn = getattr(symlib, "check_agreement", None) or getattr(symlib, "c01_symbols", None)
-    if fn is None:
-        ctx.cov["symlib"] = "present, no C01 entry point"
+    need = ("roundtrip_job", "run_sym_jobs", "validate_symbols", "judge_symbols")
+    if not all(hasattr(symlib, n) for n in need):
+        ctx.cov["symlib"] = "present, without the round-trip entry points"
         return
+    rnd = random.Random(ctx.seed + 101)
+    n = 16 if tier == "quick" else 120
+    jobs = []
+    for i in range(n):
+        fmt = rnd.choice(["lzma", "lzma2"])
+        jobs.append(symlib.roundtrip_job(f"c01-sym-{i}", fmt, {"preset": rnd.choice([0, 1, 3, 4, 6, 9]), "dict": rnd.choice([4096, 65536, 1 << 20])},
+                                         {"class": rnd.choice(["text", "mixed", "periodic", "lowent", "repeat_far", "random"]),
+                                          "len": rnd.choice([1, 500, 3000, 9000, 20000]), "seed": rnd.randrange(1 << 30)},
+                                         reads=rnd.choice([[4096], [1], [7, 0, 300]])))
     try:
-        ctx.cov["symlib"] = fn(ctx, tier)
-    except ToolError:
-        raise
-    except Exception as e:     # a sibling's library must not decide this check
+        res = symlib.run_sym_jobs(jobs)
+        runs = []
+        for j, r in zip(jobs, res):
+            if r.get("enc") != "ok" or r.get("dec") != "ok" or not r.get("equal"):
+                ctx.violation(f"{j['fmt']} round trip (symbol-traced) fails: enc={r.get('enc')} dec={r.get('dec')} equal={r.get('equal')} {r.get('msg', '')}",
+                              {"writer": j["fmt"], "outcome": "symbol_roundtrip", "input": j["data"]["class"]}, {"sym_job": j})
+            elif r.get("events"):
+                runs.append(r["events"])
+        v = symlib.validate_symbols(ctx, runs, "C01")
+        symlib.judge_symbols(ctx, v, {"writer": "lzma/lzma2", "outcome": "symbol_divergence"}, {"sym_jobs": jobs}, what="C01 symbol agreement")
+        ctx.cov["symlib"] = {"round_trips": len(jobs), "symbol_traces": len(runs), "accepted": v["accepted"], "events": v.get("events")}
+        if v["accepted"]:
+            ctx.add("traces_validated_against_impl", len(runs))
+    except ToolError as e:     # a sibling's machinery must not turn this check into an infrastructure failure
+        ctx.cov["symlib"] = f"unavailable: {str(e)[:300]}"
+    except Exception as e:
         ctx.cov["symlib"] = f"failed to run: {type(e).__name__}: {e}"
 
 
@@ -778,6 +831,16 @@ def run_c13(ctx, tier, rnd, pool, design):
         groups.append((f"repeat/{writer}", [dict(base, repeat=4, decode=False), dict(base, id=f"c13-rep-{i}-b", repeat=2, decode=False,
                                                                                     script=[dict(op="w", n=30000)])]))
     jobs = [j for _, js in groups for j in js]
+    cap, seen = (12 if quick else 80), set()
+    for j in jobs:
+        if j.get("trace") and j["writer"] in ("lzma2", "lzma1"):
+            k = json.dumps(E.job_consts(j), sort_keys=True)
+            if k not in seen and len(seen) >= cap:
+                j["trace"] = 0
+            else:
+                seen.add(k)
+        elif j.get("trace"):
+            j["trace"] = 0
     t0 = time.time()
     results = E.run_jobs(jobs)
     log(f"[impl] {len(jobs)} encoder histories ({len(groups)} comparison groups) run in {time.time()-t0:.1f}s")
